@@ -6,7 +6,7 @@ From Coq Require Import List NArith Bool Arith.
 From Coq Require String.
 Import String.StringSyntax.
 Import ListNotations.
-Require Import Cat CatFacts Tree GenTables Fmt FmtProofs FmtCodec.
+Require Import Cat CatFacts Tree GenTables Fmt FmtProofs FmtCodec FmtDeriv FmtDerivProofs.
 
 (* --- the dependency column of conll is the head assignment implied by the head flags:
    it has one entry per word, exactly one root (0) and it sits at the head word of the derivation; at every binary
@@ -52,6 +52,17 @@ Theorem C07_autox_view_tokens : forall t v, view_autox t = Some v ->
   map (fun cx => Some (snd cx)) (vleaves v) = map (fun ct => leaf5 (snd ct)) (leaves t) /\ map fst (vleaves v) = map fst (leaves t).
 Proof. exact view_autox_leaves. Qed.
 
+(* --- deriv (stretch, partial): from the cells of the two top lines and the column extents of the dash lines, the interval-stack
+   reader rebuilds shape, words, all categories and rule symbols.  Missing for full strength: reading cells and column extents
+   out of the text itself (counting blanks and dashes; needs blank-free words/categories and symbols that do not start with '-');
+   that step is covered by the exact-string correspondence of print_deriv and by the Python reader fmt_dec.dec_deriv *)
+Theorem C07_deriv_struct_roundtrip_partial : forall t cs, leaf_cells t = Some cs ->
+  exists lines v, deriv_struct t = Some (cs, lines) /\ view_deriv t = Some v /\ dec_deriv cs lines = Some v.
+Proof. exact deriv_roundtrip. Qed.
+
+Theorem C07_deriv_view_words : forall t v, view_deriv t = Some v -> Some (vleaves v) = leaf_cells t.
+Proof. exact view_deriv_leaves. Qed.
+
 (* --- whatever a format carries of the leaves, its view has the derivation's shape, categories, and the labels / head
    flags the format carries; in particular any two views have the same skeleton *)
 Theorem C07_views_same_derivation : forall (L : Type) (leaf : token -> option L) k heads t v,
@@ -96,6 +107,8 @@ Example ex_autox : option_map dec_autox (print_autox ex_tree) = Some (view_autox
 Proof. vm_compute. split; [reflexivity | discriminate]. Qed.
 Example ex_autox_line : print_autox ex_tree = Some (T "(<T S[dcl] ba 1 2> (<T NP lex 0 1> (<L N -LRB- XX NN XX XX N>) ) (<T S[dcl]\NP fa 0 2> (<L (S[dcl]\NP)/NP a-LAB-b XX XX XX XX (S[dcl]\NP)/NP>) (<L NP dog XX NN XX XX NP>) ) )").
 Proof. vm_compute. reflexivity. Qed.
+Example ex_deriv : option_map (fun x => dec_deriv (fst x) (snd x)) (deriv_struct ex_tree) = Some (view_deriv ex_tree) /\ view_deriv ex_tree <> None.
+Proof. vm_compute. split; [reflexivity | discriminate]. Qed.
 Example ex_numbering : xml_numbers [[tt; tt]; [tt]; [tt; tt; tt]] = [(1, 1); (1, 2); (2, 1); (3, 1); (3, 2); (3, 3)] /\
                        jigg_numbers [[tt; tt]; [tt]] = [(0, 0); (0, 1); (1, 0)].
 Proof. vm_compute. split; reflexivity. Qed.
